@@ -1198,6 +1198,11 @@ func (E *Engine) solvePath(key string, pi int, p *PathResult, full string) []Sub
 		notes = append(notes, fmt.Sprintf("%s: %s", out[i].Solver, out[i].Status))
 		retry := []solverSpec{solvers[1], solvers[4], solvers[2], solvers[3]}
 		tmo := E.TimeoutR
+		if os.Getenv("GOVC_DRY") == "canary" {
+			// self-test run on a change that is expected to fail: one short second opinion per failing check
+			retry = []solverSpec{solvers[1]}
+			tmo = 8000
+		}
 		if E.knownFailing()[c.Ob] {
 			// an obligation recorded as a known finding is expected to fail: one short second opinion is enough
 			retry = []solverSpec{solvers[1]}
